@@ -8,6 +8,7 @@ package ugo
 
 import (
 	"fmt"
+	"reflect"
 	"strconv"
 	"unicode/utf8"
 
@@ -98,6 +99,9 @@ func ToObject(v any) (ret Object, err error) {
 		ret = arr
 	case Object:
 		ret = v
+		if isNilPointer(v) {
+			ret = Undefined
+		}
 	case CallableFunc:
 		if v != nil {
 			ret = &Function{Value: v}
@@ -105,7 +109,11 @@ func ToObject(v any) (ret Object, err error) {
 			ret = Undefined
 		}
 	case error:
-		ret = &Error{Message: v.Error(), Cause: v}
+		if isNilPointer(v) {
+			ret = Undefined
+		} else {
+			ret = &Error{Message: v.Error(), Cause: v}
+		}
 	default:
 		if out, ok := registry.ToObject(v); ok {
 			ret, ok = out.(Object)
@@ -199,6 +207,9 @@ func ToObjectAlt(v any) (ret Object, err error) {
 		}
 	case Object:
 		ret = v
+		if isNilPointer(v) {
+			ret = Undefined
+		}
 	case CallableFunc:
 		if v != nil {
 			ret = &Function{Value: v}
@@ -206,7 +217,11 @@ func ToObjectAlt(v any) (ret Object, err error) {
 			ret = Undefined
 		}
 	case error:
-		ret = &Error{Message: v.Error(), Cause: v}
+		if isNilPointer(v) {
+			ret = Undefined
+		} else {
+			ret = &Error{Message: v.Error(), Cause: v}
+		}
 	default:
 		if out, ok := registry.ToObject(v); ok {
 			ret, ok = out.(Object)
@@ -563,3 +578,10 @@ func ToGoBool(o Object) (v bool, ok bool) {
 // builtin float
 //
 //ugo:callable func(v float64) (ret Object)
+
+// isNilPointer reports whether the non-nil interface value v holds a nil
+// pointer, whose methods cannot be called.
+func isNilPointer(v any) bool {
+	rv := reflect.ValueOf(v)
+	return rv.Kind() == reflect.Ptr && rv.IsNil()
+}
